@@ -24,7 +24,8 @@ const (
 	R10LetVar                              // let <-> var
 	R11ForWhile                            // for <-> while
 	R12ParamPattern                        // (a) <-> ([a]) with wrapped argument
-	NumRewrites     = 12
+	R13EvalClosure                         // closure <-> eval("(closure text)"): no static capture
+	NumRewrites     = 13
 )
 
 func (k RewriteKind) String() string { return fmt.Sprintf("R%d", int(k)) }
@@ -71,6 +72,8 @@ func (rw *Rewriter) Apply(p *Node, kind RewriteKind) (*Node, string, bool) {
 		desc = rw.r11(q)
 	case R12ParamPattern:
 		desc = rw.r12(q)
+	case R13EvalClosure:
+		desc = rw.r13(q)
 	}
 	if desc == "" {
 		return nil, "", false
